@@ -36,7 +36,7 @@ def _accepted(atom):
 
 def _must_reach(ctx, defn, target, depth, trail):
     """call sites through which every execution of `defn` (modulo accepted guards) reaches `target`"""
-    b = ctx.body(defn)
+    b = ctx.ibody(defn)
     for bi, t, term in b.real_calls():
         g = b.guard(bi)
         if not all(_accepted(a) for conj in g for a in conj) or len(g) != 1:
@@ -58,7 +58,7 @@ def r1(ctx):
               "every market event applied to the engine state must reach Position::update_pnl_unrealised "
               "(guarded only by 'position open' and 'price known')",
               sites=[ctx.facts.bodies[entry]["span"]],
-              got=[mir.short(c[1]) for _, _, c in ctx.body(entry).real_calls()],
+              got=[mir.short(c[1]) for _, _, c in ctx.ibody(entry).real_calls()],
               want="a call chain (depth <= 2) to Position::update_pnl_unrealised", key="must-reach")
     if trail:
         # the instrument whose data is processed is the event's own instrument
@@ -72,7 +72,7 @@ def r1(ctx):
 
 def r2(ctx):
     d = ctx.find(name="update_from_market", self_adt=IS, trait="")
-    b = ctx.body(d)
+    b = ctx.ibody(d)
     calls = b.real_calls()
     proc = [(bi, t, term) for bi, t, term in calls if term[1].endswith("Processor::process") and render(term[2][0]) == "self.data"]
     price = [(bi, t, term) for bi, t, term in calls if term[1].endswith("InstrumentDataState::price")]
@@ -103,7 +103,7 @@ FIELDS = ("quantity_abs", "price_entry_average", "fees_enter", "quantity_abs_max
 
 def r3(ctx):
     d = ctx.find(name="update_from_trade", self_adt=POS, trait="")
-    b = ctx.body(d)
+    b = ctx.ibody(d)
     upd = [(bi, t, term) for bi, t, term in b.real_calls() if term[1].endswith("::update_pnl_unrealised")]
     ctx.floor("update_pnl_unrealised call sites in Position::update_from_trade", len(upd), 4)
     eff = common.effects(b, lambda p: p[0] == "proj" and p[1][0] == "param" and p[1][2] == "self" and p[2][0] in FIELDS)
@@ -185,7 +185,7 @@ def _returns_reachable_avoiding(b, avoid):
 
 def r4(ctx):
     f = ctx.find(path="barter::engine::state::position::calculate_pnl_unrealised")
-    b = ctx.body(f)
+    b = ctx.ibody(f)
     names = [b.param_name(i) for i in range(1, b.argc + 1)]
     want_names = ["position_side", "price_entry_average", "quantity_abs", "quantity_abs_max", "fees_enter", "price"]
     ctx.check("calculate_pnl_unrealised", names == want_names, "parameter roles", got=names, want=want_names, key="params")
@@ -211,7 +211,7 @@ def r4(ctx):
                   sites=[ctx.site(b, bi)], got=got, want=str(want.get(side)), key="formula")
     ctx.check("calculate_pnl_unrealised", seen == {"Buy", "Sell"}, "one formula per side", got=sorted(map(str, seen)), key="arms")
     # argument roles at the single library call site
-    u = ctx.fbody(name="update_pnl_unrealised", self_adt=POS, trait="")
+    u = ctx.fibody(name="update_pnl_unrealised", self_adt=POS, trait="")
     st = [s for s in u.stores()]
     ok = len(st) == 1 and render(st[0][2]) == "self.pnl_unrealised" and st[0][3][0] == "call" and st[0][3][1] == f
     ctx.check("Position::update_pnl_unrealised", ok, "stores calculate_pnl_unrealised(..) into self.pnl_unrealised",
@@ -237,7 +237,7 @@ def r5(ctx):
 def r6(ctx):
     """a position OPENED by a fill (first fill, or the remainder of a flip) must carry the estimate at the fill price"""
     fr = ctx.find(name="from", self_adt=POS, trait="std::convert::From")
-    b = ctx.body(fr)
+    b = ctx.ibody(fr)
     rt = b.return_term()
     f = dict(zip(rt[2], rt[3])) if rt[0] == "agg" else {}
     v = f.get("pnl_unrealised")
@@ -265,15 +265,13 @@ def r6(ctx):
 
 def r7(ctx):
     MD = "barter::engine::state::instrument::data::DefaultInstrumentMarketData"
-    b = ctx.body(ctx.find(name="price", self_adt=MD, trait="barter::engine::state::instrument::data::InstrumentDataState"))
+    b = ctx.ibody(ctx.find(name="price", self_adt=MD, trait="barter::engine::state::instrument::data::InstrumentDataState"))
     rt = b.return_term()
-    ok = rt[0] == "call" and rt[1].endswith("Option::<T>::or") and render(rt[2][0]) == "OrderBookL1::volume_weighed_mid_price(self.l1)"
-    if ok:
-        alt = rt[2][1]
-        ok = alt[0] == "call" and alt[1].endswith("::map") and render(alt[2][0]) == "self.last_traded_price"
-        if ok:
-            cb, _ = mir.closure_body(ctx.facts, alt[2][1])
-            ok = render(cb.return_term()) == "$1.value"
+    mid = "OrderBookL1::volume_weighed_mid_price(self.l1)"
+    ok = common.case_table(b) == {
+        "(%s is Some)" % mid: ["Option::Some{0: %s.as:Some.0}" % mid],
+        "(%s is None && self.last_traded_price is Some)" % mid: ["Option::Some{0: self.last_traded_price.as:Some.0.value}"],
+        "(%s is None && self.last_traded_price is None)" % mid: ["Option::None{}"]}
     ctx.check("DefaultInstrumentMarketData::price", ok,
               "the default instrument price is the current top-of-book mid, else the last traded price, both read from the data just processed",
               got=render(rt)[:200], key="source")
